@@ -162,7 +162,7 @@ def run(ctx):
     # 1. the design satisfies the property; the invariant is not vacuous
     lib.spec_check(ctx, "CtxLifecycle", "CtxLifecycle_mc_quick.cfg" if q else "CtxLifecycle_mc.cfg", workers=4 if q else 8, timeout=1500,
                    note="every kind; 2 slots x 2 objects, 2 requests per connection, %d mutator step(s) over every distinct touch set of "
-                        "the 375-mutator alphabet; reset sets as in the code with the proposed headerLength repair" % (1 if q else 2))
+                        "the 376-mutator alphabet; reset sets as in the code with the proposed headerLength repair" % (1 if q else 2))
     _expect_violation(ctx, "CtxLifecycle_neg.cfg", "ctx.Keys = nil dropped from RequestContext.ResetWithoutConn")
     _expect_violation(ctx, "CtxLifecycle_asis.cfg", "model variant without the ResponseHeader.headerLength reset (the defect fixed in hertz) must violate FreshAtProbe")
 
@@ -321,7 +321,7 @@ def run(ctx):
         "traces_validated_against_impl": n, "samples": samples,
         "probes": nprobe, "probes_on_recycled_object": nrecycled, "dirty_lines_by_component": dict(dirty_by_comp),
         "driver_stats": stats, "race_detector_reports": len(races),
-        "rule": "TLC enumerates histories from the 375-mutator Touch table: every single mutator x {same keep-alive connection, next "
+        "rule": "TLC enumerates histories from the 376-mutator Touch table: every single mutator x {same keep-alive connection, next "
                 "connection, other concurrently open connection} x {return, abort, panic under recovery}; ordered pairs (%s) and seeded "
                 "triples of context mutators; every single mutator and ordered pairs for acquired Request/Response/URI/Cookie and Args; "
                 "concurrent histories (%s); plus one touch-measurement case per mutator and the API coverage case. Each history runs on "
